@@ -210,3 +210,20 @@ _R6 = {
 for _pid, _extra in _R6.items():
     _ref, _tech, _text, _note = CHECKS[_pid]
     CHECKS[_pid] = (_ref, _tech, _text + _extra, _note)
+
+# review round h3
+_H3 = {
+    "C02": " No operation may be issued on a context while a suspension unwinds through it (known finding).",
+    "C03": " A raising retry / wait strategy is user code like any other: the operation's failure must still be recorded.",
+    "C07": " A wait found STARTED parks until its recorded end time.",
+    "C09": " A decided policy overrules a recorded suspension; branch outcomes on record are counted before branches are submitted (known finding).",
+    "C10": " The entry query every operation asks is evaluated on small chains: it must stop an orphaned branch (one shape is a known finding).",
+    "C14": " The serdes of a callback result is used for the callback result only (known finding).",
+    "C15": " Leaf codecs decode no deeper than they encode.",
+    "C16": " The entry query lets a re-traversal pass; the rebuild of a summarised map/parallel reaches the depth of the first delivery (known finding).",
+    "C19": " No user code (formatting of the stored exception) under the internal mutex.",
+    "C20": " Timestamps are comparable after the JSON codec (known finding: no normalisation where objects are built).",
+}
+for _pid, _extra in _H3.items():
+    _ref, _tech, _text, _note = CHECKS[_pid]
+    CHECKS[_pid] = (_ref, _tech, _text + _extra, _note)
